@@ -10,6 +10,11 @@ resolved is what stat (following links) sees: ["file", digest, mode] | ["dir"] |
 The generator of the histories replaces outputs between "StepUp recorded them" and the cleanup by
   content        different content
   same-new-inode same content, new inode (must still be removed: C07)
+  replaced-same-stat  ANOTHER file renamed over the output: other content, same size, permission bits and mtime
+                 (cp -p / rsync -t + mv), new inode -- only the inode tells the stat shortcut of FileHash.refreshed
+  inplace-same-stat   other content of the same size written in place, mtime restored: same (mode, mtime, size, inode).
+                 This is the documented limit of the stat shortcut (assumption A-stat; C03's hypothesis `honest`): the
+                 code cannot see the change, so a removal of such a file is NOT reported
   link-user      a symbolic link to a user file with different content
   link-copy      a symbolic link to a user file holding a copy of the recorded content
   moved-linked   the file moved into a user directory, a symbolic link left in its place
@@ -35,7 +40,7 @@ from path import Path
 from . import clean_common as cc
 from .wfutil import WF
 
-TAMPERS = ["content", "same-new-inode", "link-user", "link-copy", "moved-linked", "link-output", "link-dangling",
+TAMPERS = ["content", "same-new-inode", "replaced-same-stat", "inplace-same-stat", "link-user", "link-copy", "moved-linked", "link-output", "link-dangling",
            "link-loop", "link-dir", "dir-empty", "dir-nonempty", "removed"]
 LINK_TAMPERS = [t for t in TAMPERS if t.startswith("link-") or t == "moved-linked"]
 
@@ -101,6 +106,13 @@ def model_fs(snap):
     return out
 
 
+def honest_stat(c):
+    """No file of the case was changed behind the stat shortcut (assumption A-stat of the model): cases with the
+    tamper inplace-same-stat are judged by the oracle (which skips them) but not compared with the model."""
+    kinds = [k for _, _, k in c["desc"]] if "desc" in c else list(c.get("edits", {}).values())
+    return "inplace-same-stat" not in kinds
+
+
 def model_ok(snap):
     """Is the tree inside the model's assumptions (A-links)?  Link targets stay inside the project."""
     return all(not (e[0] == "link" and (e[3].startswith("..") or os.path.isabs(e[3]))) for e in snap.values())
@@ -126,7 +138,7 @@ def through(ent):
 # ---------------------------------------------------------------------------------------------
 
 
-def judge(site, before, after, owned, why_not=None, unsafe=False):
+def judge(site, before, after, owned, why_not=None, unsafe=False, forged=(), twins=()):
     """`owned`: path -> {"volatile": bool, "digest": recorded content digest} for every path StepUp may remove in
     this cleanup.  `why_not(p)`: the reason a removed path is not owned (signature part).  Returns [(sig, detail)]."""
     out = []
@@ -151,7 +163,13 @@ def judge(site, before, after, owned, why_not=None, unsafe=False):
                 out.append((f"own:{site}:removed:{w}:holds-no-content",
                             f"{p} ({ent}) was put there by the user in place of the recorded output and was removed"))
             elif t[1] != o["digest"]:
-                out.append((f"own:{site}:removed:{w}:content-differs",
+                q, hops = p, 0
+                while before.get(q, ["?"])[0] == "link" and hops < 8:      # what the path leads to
+                    q, hops = before[q][3], hops + 1
+                if o.get("forged") or owned.get(q, {}).get("forged") or p in forged or q in forged:
+                    continue      # same (mode, mtime, size, inode): invisible to the stat shortcut (assumption A-stat)
+                circ = ":same-size-mode-mtime-new-inode" if (p in twins or q in twins) else ""
+                out.append((f"own:{site}:removed:{w}:content-differs{circ}",
                             f"{p} ({ent}) does not hold the recorded content {o['digest']} and was removed"))
     for p in sorted(after):
         if p not in before:
@@ -191,6 +209,24 @@ def tamper(rng, p, kind, pool, serial):
         os.remove(p)
         Path(p).write_bytes(c)
         os.chmod(p, m)
+    elif kind in ("replaced-same-stat", "inplace-same-stat"):
+        if os.path.islink(p) or not os.path.isfile(p):
+            return None
+        st = os.stat(p)
+        old = Path(p).read_bytes()
+        new = bytes((c + 1) % 256 for c in old)        # same size, every byte different
+        if not old:
+            return None
+        if kind == "replaced-same-stat":
+            tmp = p + ".incoming"
+            Path(tmp).write_bytes(new)
+            os.chmod(tmp, stat.S_IMODE(st.st_mode))
+            os.utime(tmp, ns=(st.st_atime_ns, st.st_mtime_ns))
+            os.rename(tmp, p)                             # new inode, same size / mode / mtime
+        else:
+            with open(p, "r+b") as fh:                     # same inode
+                fh.write(new)
+            os.utime(p, ns=(st.st_atime_ns, st.st_mtime_ns))
     elif kind in ("link-user", "link-copy", "moved-linked", "link-dir"):
         os.makedirs("user", exist_ok=True)
         if kind == "link-dir":
@@ -315,6 +351,8 @@ async def rdf_case(rng, force=None):
                 first = False
                 if kind is not None:
                     kind = tamper(rng, p, kind, {"outputs": outputs}, serial)
+                if kind == "inplace-same-stat" and p in owned:
+                    owned[p]["forged"] = True
                 desc.append([p, role, kind])
             before = lsnap(".", hids)
             queue = {str(k): (None if v is None else "hash") for k, v in wf.to_be_deleted.items()}
@@ -398,7 +436,9 @@ def link_pair_witness(order, d=""):
 
 
 def rdf_oracle(c):
-    out = judge("rdf", c["before"], c["after"], c["owned"], why_not=lambda p: "not-queued")
+    out = judge("rdf", c["before"], c["after"], c["owned"], why_not=lambda p: "not-queued",
+                forged={p for p, _, k in c["desc"] if k == "inplace-same-stat"},
+                twins={p for p, _, k in c["desc"] if k == "replaced-same-stat"})
     if c["left"]:
         out.append(("own:rdf:queue-not-cleared", f"to_be_deleted after remove_deletable_files: {c['left']}"))
     if c.get("crash"):
@@ -544,7 +584,8 @@ def _owned_from_graph(b, graph, edits, selectable=None):
             reasons[p] = "attached-without-all"
         else:
             t = through(ent)
-            owned[p] = {"volatile": n["fstate"] == cc.VOLATILE, "digest": t[1] if t and t[0] == "file" else None}
+            owned[p] = {"volatile": n["fstate"] == cc.VOLATILE, "digest": t[1] if t and t[0] == "file" else None,
+                        "forged": edits.get(p) == "inplace-same-stat"}
     return owned, reasons
 
 
@@ -623,7 +664,9 @@ def finalize_oracle(res):
         out += [x for x in judge("finalize", res["before"], res["after"], {}) if ":altered:" in x[0] or ":created:" in x[0]]
         return out
     out += judge("finalize", res["before"], res["after"], res["owned"],
-                 why_not=lambda p: res["reasons"].get(p, "never-written-by-a-step"))
+                 why_not=lambda p: res["reasons"].get(p, "never-written-by-a-step"),
+                 forged={p for p, k in res["edits"].items() if k == "inplace-same-stat"},
+                 twins={p for p, k in res["edits"].items() if k == "replaced-same-stat"})
     if res["queue_left"]:
         out.append(("own:finalize:queue-left", str(res["queue_left"])))
     if sorted(res["removed_events"]) != gone:
@@ -803,7 +846,9 @@ def clean_oracle(c):
     if not commit and gone:
         out.append(("own:clean:removed-without-commit", str(gone)))
     out += judge("clean", c["before"], c["after"], c["owned"],
-                 why_not=lambda p: c["reasons"].get(p, "never-written-by-a-step"), unsafe=not safe)
+                 why_not=lambda p: c["reasons"].get(p, "never-written-by-a-step"), unsafe=not safe,
+                 forged={p for p, k in c["edits"].items() if k == "inplace-same-stat"},
+                 twins={p for p, k in c["edits"].items() if k == "replaced-same-stat"})
     return out
 
 
@@ -967,8 +1012,9 @@ def e3_replace_case(kind, via, volatile, subdir=""):
            "how": "harness.clean_own.e3_replace_case(kind, via, volatile): plan.py drops mkA, harness.e3.build after each phase"}
     if (rcs[-1] & ~8) != 0:
         return [], [], rec
-    owned = {out: {"volatile": volatile, "digest": wrote[1]}}
-    v6 = judge("e3", before, after, owned, why_not=lambda p: "not-an-orphaned-output")
+    owned = {out: {"volatile": volatile, "digest": wrote[1], "forged": applied == "inplace-same-stat"}}
+    v6 = judge("e3", before, after, owned, why_not=lambda p: "not-an-orphaned-output",
+               twins={out} if applied == "replaced-same-stat" else ())
     v7 = []
     if applied in (None, "same-new-inode") and kind in (None, "same-new-inode") and out in after:
         v7.append(("own:c07:e3:orphan-kept:" + what(before[out]), f"{out} is unmodified, its step is gone, and it is still there"))
